@@ -25,7 +25,7 @@ func runEnv(c *Ctx) {
 		toks   []string
 		alen   int
 	}
-	tiers := []tier{{leavesFull, 3, tokTiny, 3}, {leavesFull, 2, tokMid, 3}}
+	tiers := []tier{{leavesFull, 3, tokTiny, 3}, {leavesFull, 2, tokMid, 3}, {leavesNest, 4, []string{"x", "-a", "--"}, 3}}
 	if c.Thorough() {
 		tiers = []tier{{leavesFull, 3, tokMid, 3}, {leavesMid, 4, tokTiny, 3}, {leavesNest, 5, []string{"x", "-a", "--"}, 3}}
 	}
